@@ -578,6 +578,60 @@ fn replay_one(beh: &Value, dir: &str, deep_every: bool, twin: bool) -> Value {
 					Err(_) => "panic".to_string(),
 				}
 			}
+			"ResetHead" => {
+				let c = chain.as_ref().unwrap();
+				let tip = grin_chain::Tip::from_header(&w.blocks[&b].header);
+				match std::panic::catch_unwind(std::panic::AssertUnwindSafe(|| c.reset_chain_head(tip, true))) {
+					Ok(Ok(())) => "ok".to_string(),
+					Ok(Err(_)) => "reject".to_string(),
+					Err(_) => "panic".to_string(),
+				}
+			}
+			"Probe" => {
+				// read-only rewind of the body state to an ancestor of the head; its roots and sizes must be
+				// those of the ancestor's header
+				let c = chain.as_ref().unwrap();
+				let hdr = w.blocks[&b].header.clone();
+				let r = std::panic::catch_unwind(std::panic::AssertUnwindSafe(|| {
+					let hp = c.header_pmmr();
+					let ts = c.txhashset();
+					let mut hp = hp.write();
+					let mut ts = ts.write();
+					let uat = ids(&s["uat"]);
+					grin_chain::txhashset::extending_readonly(&mut hp, &mut ts, |ext, batch| {
+						ext.extension.rewind(&hdr, batch)?;
+						ext.extension.validate_roots(&hdr)?;
+						ext.extension.validate_sizes(&hdr)?;
+						// the rewound view exposes exactly the outputs unspent at that block, with their data
+						let view = ext.extension.utxo_view(ext.header_extension);
+						for (cid, commit) in &w.commit_of {
+							let inputs = grin_core::core::Inputs::CommitOnly(vec![(*commit).into()]);
+							match view.validate_inputs(&inputs, batch) {
+								Ok(v) => {
+									if !uat.contains(cid) {
+										return Err(ChainError::Other(format!("probe: {} spendable but not unspent at the target", cid)));
+									}
+									let o = view.get_unspent_output_at(v[0].1.pos - 1)?;
+									if o.commitment() != *commit {
+										return Err(ChainError::Other(format!("probe: wrong output at position of {}", cid)));
+									}
+								}
+								Err(_) => {
+									if uat.contains(cid) {
+										return Err(ChainError::Other(format!("probe: {} unspent at the target but not available", cid)));
+									}
+								}
+							}
+						}
+						Ok(())
+					})
+				}));
+				match r {
+					Ok(Ok(())) => "ok".to_string(),
+					Ok(Err(_)) => "reject".to_string(),
+					Err(_) => "panic".to_string(),
+				}
+			}
 			"Reopen" => {
 				chain = None;
 				match std::panic::catch_unwind(|| init_chain(&node_dir)) {
